@@ -587,9 +587,39 @@ func replayCase(idx int, c Case, seed int64) Result {
 		if strings.HasSuffix(p, ".include") && sameSet(lookup(want, dp), lookup(got, dp)) {
 			return fail("DIV/include-order", fmt.Sprintf("snapshot names at %s are the expected set in another order / multiplicity: %s", dp, d))
 		}
+		if _, versioned := doc["configVersion"]; !versioned {
+			// legacy format: its own signature; "/default" when the option is not declared in the document
+			return fail("C10/v0-mismatch"+p+legacyDefaultSuffix(doc, dp), fmt.Sprintf("effective configuration of a legacy (no configVersion) document differs from the reference at %s: %s", dp, d))
+		}
 		return fail("C10/mismatch"+p, fmt.Sprintf("effective configuration differs from the reference at %s: %s", dp, d))
 	}
 	return res
+}
+
+// legacyDefaultSuffix returns "/default" when the differing field of a legacy binding (path like
+// ".kubernetes[0].events" or ".schedules[1].allowFailure") is an option the document does not declare.
+func legacyDefaultSuffix(doc map[string]interface{}, path string) string {
+	m := regexp.MustCompile(`^\.(kubernetes|schedules)\[(\d+)\]\.([A-Za-z]+)`).FindStringSubmatch(path)
+	if m == nil {
+		return ""
+	}
+	sect := map[string]string{"kubernetes": "onKubernetesEvent", "schedules": "schedule"}[m[1]]
+	key, ok := map[string]string{"events": "event", "name": "name", "allowFailure": "allowFailure", "jqFilter": "jqFilter",
+		"nameSelector": "objectName", "labelSelector": "selector", "namespace": "namespaceSelector"}[m[3]]
+	if !ok {
+		return "/default" // queue, sync, keep, group, include, apiVersion: the legacy format cannot declare them
+	}
+	var i int
+	fmt.Sscanf(m[2], "%d", &i)
+	items, _ := doc[sect].([]interface{})
+	if i >= len(items) {
+		return ""
+	}
+	b, _ := items[i].(map[string]interface{})
+	if _, declared := b[key]; declared {
+		return ""
+	}
+	return "/default"
 }
 
 func classOf(c Case) string {
